@@ -1751,6 +1751,13 @@ def _add_noise(root: El):
             c._append(El("metadata", {}, [El(FOREIGN + "rdf", {}), El("title", {}), El("desc", {})]), 0)
             c._append(El("title", {}))
             c._append(El("symbol", {}, [El("path", {"id": f"insym{k}", "d": pd(("M", (0, 0)), ("L", (9, 9)), ("L", (0, 9)), ("Z", ()))})]))
+    # processing instructions inside elements that are not containers: gradients (with and without stops of their own), stops,
+    # clip paths, shapes, <use>
+    for n in [n for n in root.subtree() if isinstance(n.tag, str) and n.local() in ("linearGradient", "radialGradient", "stop", "clipPath", "path", "rect", "circle", "use")]:
+        k += 1
+        n._append(El(ETREE_PI, name=f"pin{k}"), 0)
+        if k % 2 == 0:
+            n._append(El(ETREE_PI, name=f"pin{k}b"))
     # attribute-less wrapper groups around every other top-level shape / group
     top = [ch for ch in root.children if isinstance(ch.tag, str) and ch.local() in ("path", "rect", "g", "use")]
     for i, ch in enumerate(top):
@@ -1789,6 +1796,13 @@ def check_noise_invariance(repo: Repo, rep: Report, rule: str):
             if not isinstance(ch.tag, str) or ch.local() in ("title", "metadata", "thing", "symbol"):
                 ch._detach()
         r.attrib.pop("{http://example.com/ns}attr", None)
+        # gradients that take stops and attributes from a template (one of them through a chain), used by transformed shapes
+        defs = next(c for c in r.children if isinstance(c.tag, str) and c.local() == "defs")
+        defs._append(El("linearGradient", {"id": "gt0", "x2": "0.75"}, [El("stop", {"offset": "0", "stop-color": "red"}), El("stop", {"offset": "1", "stop-color": "blue"})]))
+        defs._append(El("linearGradient", {"id": "gt1", XLINK_HREF: "#gt0", "y2": "0.5"}))
+        defs._append(El("radialGradient", {"id": "gt2", XLINK_HREF: "#gt1", "r": "0.25"}))
+        r._append(El("path", {"id": "tg1", "fill": "url(#gt1)", "transform": "tQ", "d": pd(("M", (20, 70)), ("L", (24, 70)), ("L", (24, 74)), ("Z", ()))}))
+        r._append(El("path", {"id": "tg2", "fill": "url(#gt2)", "transform": "tQ", "d": pd(("M", (30, 70)), ("L", (34, 70)), ("L", (34, 74)), ("Z", ()))}))
         return r
 
     outs_a, _ = run_pipeline(repo, 3, 1, doc=clean)
@@ -1808,7 +1822,7 @@ def check_noise_invariance(repo: Repo, rep: Report, rule: str):
         rep.fail(rule, F, "conversion with and without ignorable content", f"{len(probs)} deviations; first: {probs[0]}", svg, fn)
     else:
         rep.ok(rule, F + " [ignorable content]", "schematic document with every supported feature, converted with and without processing instructions, title/desc/metadata, foreign elements/attributes, "
-                                                 "id-less symbols and attribute-less wrapper groups at every level: identical results", True)
+                                                 "id-less symbols and attribute-less wrapper groups at every level, processing instructions also inside gradients (incl. ones that take their stops from a template), stops, clip paths, shapes and <use>: identical results", True)
 
 
 # =========================================================================================== style attributes
